@@ -162,14 +162,14 @@ META = {
         "level": "exploration",
         "design_ref": "DESIGN.md §4 C01, §2.1, §2.2",
         "technique": "property-based testing: proptest-generated address placements executed against the real crate in an isolated worker (harness-owned address space: synthetic code arenas, interposer-dictated trampoline page, fake mapped at a chosen displacement) + the real amd64 encoder in simulation over the whole 64-bit space; oracle = independent x86-64 decoder followed by really calling the function",
-        "text": "Native: ~2.4*10^3 (quick) / 1.2*10^5 (thorough) generated placements (function below 128 MiB / low 4 GiB / near the image / near libs / mid space, any in-page offset incl. page-straddling entries, trampoline page dictated anywhere in +/-128 MiB, fake at +/-2^31+-k and far, every API flavour, callers on 1-4 extra threads): the written bytes are decoded to the fake's entry and the function is then really called; a worker crash is a verdict. Simulation: 3*10^5 / 2*10^7 cases of the real patch_amd64.rs over all 64-bit addresses incl. the Windows-style long entry, with the rel32 boundary enumerated exhaustively on both hops. Sampling, not proof.",
+        "text": "Native: ~2.4*10^3 (quick) / 1.2*10^5 (thorough) generated placements (function below 128 MiB / low 4 GiB / near the image / near libs / mid space, any in-page offset incl. page-straddling entries, trampoline page dictated anywhere in +/-128 MiB, fake at +/-2^31+-k and far, every API flavour, callers on 1-4 extra threads): the written bytes are decoded to the fake's entry and the function is then really called; a worker crash is a verdict. Simulation: 3*10^5 / 2*10^7 cases of the real patch_amd64.rs over all 64-bit addresses incl. the Windows-style long entry, with the rel32 boundary enumerated exhaustively on both hops. Sampling, not proof. The amd64 encoder simulation runs twice: from the ordinary build and from a profile with debug assertions and overflow checks compiled out (what a release build of the crate does).",
         "note": NATIVE_NOTE + " A refusal (panic) that leaves the target untouched satisfies the statement and is counted, not judged.",
     },
     "C02": {
         "level": "exploration",
         "design_ref": "DESIGN.md §4 C02",
         "technique": "stateful property-based testing: proptest-generated install histories (vec of lifetimes x vec of Install/Call steps) interpreted against the real crate; oracle = reference model (per-target stack) while alive + pristine-snapshot round trip after every lifetime",
-        "text": "2.4*10^3 (quick) / 1.2*10^5 (thorough) generated histories (~6*10^3 / 3*10^5 lifetimes) over 9 real targets (plain, two instantiations of a generic, bool, libc labs, method) and up to 3 synthetic ones, kinds raw/closure/fake!/boolean/unchecked with repetition on one target, normal and unwinding exits, many consecutive lifetimes per process. While alive every call must return the latest installation's value; after each lifetime the first 32 bytes of every target equal the process-start snapshot and the original value is back.",
+        "text": "2.4*10^3 (quick) / 1.2*10^5 (thorough) generated histories (~6*10^3 / 3*10^5 lifetimes) over 9 real targets (plain, two instantiations of a generic, bool, libc labs, method) and up to 3 synthetic ones, kinds raw/closure/fake!/boolean/unchecked with repetition on one target, normal and unwinding exits, many consecutive lifetimes per process. While alive every call must return the latest installation's value; after each lifetime the first 32 bytes of every target equal the process-start snapshot and the original value is back. One lifetime in six meets a failing munmap while its injector goes out of scope (the k-th release is refused by the platform): restoration is demanded all the same.",
         "note": NATIVE_NOTE + " Async installs are exercised under C14. Page protections after restoration are not judged (the statement speaks of code bytes and behaviour).",
     },
     "C03": {
@@ -218,7 +218,7 @@ META = {
         "level": "exploration",
         "design_ref": "DESIGN.md §4 C08, §2.3",
         "technique": "generated-source property-based testing: every arm of macro_rules! fake is instantiated from its own matcher, compiled as its own binary against the working tree, and driven by Hypothesis-generated call scripts; oracle = one common reference model parameterised only by the arm's options (exhaustive over arms, random over scripts)",
-        "text": "All arms found in the working tree at check time (52 today) x 40 (quick) / 1500 (thorough) generated scripts of 1..12 calls with run-time generated `when` threshold, assign and returns constants and budget N: every arm must compile for a well-typed use (a compile error attributed to the expansion of fake! is a violation), `when` guards the call, a rejected call (by `when` or by the budget) runs neither `assign` nor `returns`, `assign` runs before `returns` is evaluated, `returns` is evaluated exactly once per admitted call with that call's arguments and the constant as set for that call, unit arms return (), `times` is enforced and verified at scope exit naming both numbers; for extern C/system arms a predicted panic is the last call and observed as the abort of the child with its message.",
+        "text": "All arms found in the working tree at check time (52 today) x 40 (quick) / 1500 (thorough) generated scripts of 1..12 calls with run-time generated `when` threshold, assign and returns constants and budget N: every arm must compile for a well-typed use (a compile error attributed to the expansion of fake! is a violation), `when` guards the call, a rejected call (by `when` or by the budget) runs neither `assign` nor `returns`, `assign` runs before `returns` is evaluated, `returns` is evaluated exactly once per admitted call with that call's arguments and the constant as set for that call, unit arms return (), `times` is enforced and verified at scope exit naming both numbers; for extern C/system arms a predicted panic is the last call and observed as the abort of the child with its message. A quarter of the scripts run from a destructor while the thread unwinds; a third also install a fake from a second expansion of the same arm on a second function through the same injector (its budget and verdict are its own); concurrent blocks mix calls rejected by `when` with matching ones.",
         "note": "Trusts: rustc + cargo JSON diagnostics (spans[].expansion.macro_decl_name); Hypothesis; my token-tree scanner of macro_rules (an arm shape it does not understand is counted as unsupported, never a violation; a compile error outside the macro expansion is exit 2).",
     },
     "C09": {
@@ -267,14 +267,14 @@ META = {
         "level": "exploration",
         "design_ref": "DESIGN.md §4 C15, §2.2",
         "technique": "property-based testing: proptest-generated and exhaustively swept (func, trampoline, fake) tuples run through the real AArch64 encoder; oracle = independent A64 decoder with symbolic registers",
-        "text": "The real patch_arm64.rs / arm64_codegenerator.rs (Linux and macOS cfg variants) are executed on the host for ~7*10^5 (quick) to >2*10^7 (thorough) generated cases plus exhaustive sub-sweeps (every 16-bit chunk of the fake address in every position; every word displacement within 80 words of the +/-128 MiB edges; ADRP page differences), and every byte they emit is decoded by an independent A64 decoder that must arrive at exactly the trampoline and then exactly the fake (or x0=value; ret), writing only x9..x17. A second engine (s2) runs the same patcher together with the unmodified common.rs against a model libc and follows the bytes found in (real, low) memory from the entry to the end; it only uses `PatchTrait::replace_function_*`, so it still decides when a change to the crate's internals stops the shim-based engine from building. Sampling, not proof: absence of a counterexample in the explored set.",
+        "text": "The real patch_arm64.rs / arm64_codegenerator.rs (Linux and macOS cfg variants) are executed on the host for ~7*10^5 (quick) to >2*10^7 (thorough) generated cases plus exhaustive sub-sweeps (every 16-bit chunk of the fake address in every position; every word displacement within 80 words of the +/-128 MiB edges; ADRP page differences), and every byte they emit is decoded by an independent A64 decoder that must arrive at exactly the trampoline and then exactly the fake (or x0=value; ret), writing only x9..x17. A second engine (s2) runs the same patcher together with the unmodified common.rs against a model libc and follows the bytes found in (real, low) memory from the entry to the end; it only uses `PatchTrait::replace_function_*`, so it still decides when a change to the crate's internals stops the shim-based engine from building. Sampling, not proof: absence of a counterexample in the explored set. Every case also runs against a build without debug assertions and overflow checks (engine s1-arm64-noassert): a refusal must not exist only as a debug_assert.",
         "note": "Trusts: rustc; the three textual rewrites in vsim/build.rs; my A64 decoder (cross-checked against llvm-mc in `vsim selftest`); the 7-item shim of common.rs. Code is judged from emitted bytes, never executed on AArch64; dsb/isb barriers are not visible.",
     },
     "C16": {
         "level": "exploration",
         "design_ref": "DESIGN.md §4 C16, §2.2",
         "technique": "property-based testing: proptest-generated (entry, fake) pairs in the three entry classes through the real ARM patcher; oracle = independent A32/T32 decoder with Align(PC,4) literal addressing + AAPCS32 register-discipline predicate",
-        "text": "The real patch_arm.rs is executed on the host for 3*10^5 (quick) to 3*10^7 (thorough) generated cases over all 32-bit targets/fakes in the three entry classes; the 12 written bytes are decoded by an independent A32/T32 decoder (literal load must read the word holding the fake inside the written range, then BX; guard must describe exactly the overwritten range; forced-boolean literals are resolved back to the host-compiled return_true/false and executed). A second engine (s2: unmodified common.rs + model libc, bytes read back from real low memory) follows the entry after every installation and demands the same destination; it survives changes to the crate's internal types. The register-discipline part has two KNOWN findings (r7 in Thumb, r9 in ARM state), excluded by exact signature so the rest of the statement is still searched.",
+        "text": "The real patch_arm.rs is executed on the host for 3*10^5 (quick) to 3*10^7 (thorough) generated cases over all 32-bit targets/fakes in the three entry classes; the 12 written bytes are decoded by an independent A32/T32 decoder (literal load must read the word holding the fake inside the written range, then BX; guard must describe exactly the overwritten range; forced-boolean literals are resolved back to the host-compiled return_true/false and executed). A second engine (s2: unmodified common.rs + model libc, bytes read back from real low memory) follows the entry after every installation and demands the same destination; it survives changes to the crate's internal types. The register-discipline part has two KNOWN findings (r7 in Thumb, r9 in ARM state), excluded by exact signature so the rest of the statement is still searched. Every case also runs against a build without debug assertions and overflow checks (engine s1-arm-noassert).",
         "note": "Trusts: rustc; vsim/build.rs rewrites; my A32/T32 decoder (cross-checked against llvm-mc); pointer truncation `as u32` on a 64-bit host is faithful only for addresses < 2^32, which is what is generated. Never executed on ARM hardware.",
     },
 }
